@@ -5,6 +5,8 @@ import os
 import shutil
 import subprocess
 import tempfile
+import sys
+sys.path.insert(0, os.path.dirname(os.path.abspath(__file__)))
 
 ROOT = os.path.dirname(os.path.dirname(os.path.abspath(__file__)))
 REPO = os.environ.get('VERIF_REPO', '/repo')
@@ -17,6 +19,10 @@ APPEND = {
 
 
 class DriverError(Exception):
+    pass
+
+
+class DriverCrash(Exception):
     pass
 
 
@@ -72,20 +78,34 @@ def cleanup(d):
 
 def run_histories(exe, histories, timeout=600):
     inp = '\n'.join(json.dumps(h, ensure_ascii=False) for h in histories) + '\n'
-    p = subprocess.run([exe, 'history'], input=inp, capture_output=True, text=True, timeout=timeout)
+    p = subprocess.run([exe, 'history'], input=inp, capture_output=True, text=True, timeout=timeout, env=_env(99))
     if p.returncode != 0:
         raise DriverError('driver failed: ' + p.stderr[-2000:])
     return [json.loads(l) for l in p.stdout.splitlines() if l.strip()]
 
 
+def _env(i=0):
+    env = dict(os.environ)
+    env['VERIF_DATA_DIR'] = os.path.join(REPO, 'data')
+    env['VERIF_SYNTH_LAYOUT'] = os.path.join(ROOT, 'data', 'synthetic_layout.json')
+    env['VERIF_GEN_DIR'] = os.path.join(ROOT, 'build', 'gen')
+    env['XDG_DATA_HOME'] = '/tmp/riti-verif-ud-%d-%d' % (os.getpid(), i)
+    return env
+
+
 def run_bounded(exe, name, bound, shards=1, timeout=3600):
+    import gen_keytable, gen_tables
+    gen_keytable.main()
+    gen_tables.main()
     procs = [subprocess.Popen([exe, 'bounded', name, str(bound), str(i), str(shards)], stdout=subprocess.PIPE,
-                              stderr=subprocess.PIPE, text=True) for i in range(shards)]
+                              stderr=subprocess.PIPE, text=True, env=_env(i)) for i in range(shards)]
     outs = []
-    for pr in procs:
+    for i, pr in enumerate(procs):
         o, e = pr.communicate(timeout=timeout)
+        shutil.rmtree('/tmp/riti-verif-ud-%d-%d' % (os.getpid(), i), ignore_errors=True)
         if pr.returncode != 0:
-            raise DriverError('bounded %s failed: %s' % (name, e[-2000:]))
+            # a crash of the process itself (stack overflow, abort) is a violation of "returns normally"
+            raise DriverCrash('bounded %s: driver process died (exit %s): %s' % (name, pr.returncode, e[-1500:]))
         outs.append(json.loads(o.strip().splitlines()[-1]))
     agg = {'check': name, 'bound': bound, 'cases': 0, 'nontrivial': 0, 'failures': [], 'samples': []}
     for o in outs:
